@@ -68,6 +68,38 @@ Theorem C08_recognised_call_is_executable_and_returns_every_atom : forall T O ps
     traps st' = T /\ xon st' = [] /\ yon st' = [] /\ held st' = [] /\ forall p, occ_find p (occ st') = occ_find p O.
 Proof. exact recognised_round_trip_executable. Qed.
 
+(* transport (move_by_waypoints with pick and drop, two_col_zone.rearrange), for all sizes, coordinates, waypoint lists,
+   trap sets and occupancies: everything is picked up on the grid w0 and released on the last grid wn; the atom under
+   tone (i, j) ends on the (i, j) site of wn, the sites of w0 are vacated, every other site is unchanged *)
+Theorem C08_transport_is_executable_and_delivers :
+  forall nx ny (T : list pos) (O : list (pos * nat)) (w0 : list Q * list Q) (ws : list (list Q * list Q)),
+  let wn := last (w0 :: ws) w0 in
+  let Lsrc := spots_of (canon nx (fst w0)) (canon ny (snd w0)) in
+  wp_ok nx ny w0 -> Forall (wp_ok nx ny) ws ->
+  (forall x y, In x (fst w0) -> In y (snd w0) -> existsb (pos_eqb (x, y)) T = true) ->
+  (forall x y, In x (fst wn) -> In y (snd wn) -> existsb (pos_eqb (x, y)) T = true) ->
+  (forall x y, In x (fst wn) -> In y (snd wn) -> occ_find (x, y) O = None \/ has_pos (x, y) Lsrc = true) ->
+  occ_wf O = true ->
+  exists st', sim_paths (mkast T O [] [] [])
+                [mkspath nx ny [SWay [w0]; SSwitch On ALL ALL; SWay (w0 :: ws); SSwitch Off ALL ALL; SWay [wn]]] = AOk st' /\
+    traps st' = T /\ xon st' = [] /\ yon st' = [] /\ held st' = [] /\
+    (forall i j, (i < nx)%nat -> (j < ny)%nat ->
+       occ_find (nth i (fst wn) 0%Q, nth j (snd wn) 0%Q) (occ st') = occ_find (nth i (fst w0) 0%Q, nth j (snd w0) 0%Q) O) /\
+    (forall p, has_pos p (spots_of (canon nx (fst wn)) (canon ny (snd wn))) = false ->
+       occ_find p (occ st') = if has_pos p Lsrc then None else occ_find p O).
+Proof. exact transport. Qed.
+
+Theorem C08_recognised_transport_is_executable_and_delivers : forall T O ps nx ny w0 ws,
+  recognise_transport ps = Some (nx, ny, w0, ws) -> transport_ok T O ps = true ->
+  let wn := last (w0 :: ws) w0 in
+  exists st', sim_paths (mkast T O [] [] []) ps = AOk st' /\
+    traps st' = T /\ xon st' = [] /\ yon st' = [] /\ held st' = [] /\
+    (forall i j, (i < nx)%nat -> (j < ny)%nat ->
+       occ_find (nth i (fst wn) 0%Q, nth j (snd wn) 0%Q) (occ st') = occ_find (nth i (fst w0) 0%Q, nth j (snd w0) 0%Q) O) /\
+    (forall p, has_pos p (spots_of (canon nx (fst wn)) (canon ny (snd wn))) = false ->
+       occ_find p (occ st') = if has_pos p (spots_of (canon nx (fst w0)) (canon ny (snd w0))) then None else occ_find p O).
+Proof. exact recognised_transport_executable. Qed.
+
 (* a CZ-move shaped program on a 2x1 selection: out along an L-shaped path, back along its reversal *)
 Example C08_example :
   let ALL := SSlice None None None in
@@ -89,3 +121,5 @@ Print Assumptions C08_wrong_dimensions_are_refused.
 Print Assumptions C08_tweezers_never_coincide.
 Print Assumptions C08_round_trip_is_executable_and_returns_every_atom.
 Print Assumptions C08_recognised_call_is_executable_and_returns_every_atom.
+Print Assumptions C08_transport_is_executable_and_delivers.
+Print Assumptions C08_recognised_transport_is_executable_and_delivers.
